@@ -38,7 +38,20 @@ import H3.Model.Datagram
     a uni stream is then never surfaced (the accept goes on waiting for another one), `accept_bi`
     must answer an error or `None` but never a stream; after `accept_bi` / `accept_uni` has answered a
     connection error every later accept answers an error; whether and with which code the
-    connection is closed then is C04's / C06's subject (the `closed=[…]` token may be absent). -/
+    connection is closed then is C04's / C06's subject (the `closed=[…]` token may be absent).
+
+    **Second audit (readings R-19a, finding D-19b).**  What the first bytes of a client-initiated bidi stream
+    ARE is decided by `classify` (RFC 9000 varints + RFC 9114 §7.1 framing, no model code): the 0x41 signal at
+    the very first bytes = a WebTransport stream (session id and payload offset from there); the signal behind
+    complete frames of unknown type = must be refused (the draft: H3_FRAME_ERROR) — h3 surfaces it (`#D-19b`,
+    spec alternative `?D-19b:…`, verdict `KNOWN:D-19b` when nothing else departs; in judge mode the interpreter
+    follows the implementation at this fork, `abObs`); a frame of a type HTTP/3 defines = a request
+    (`conn.ab=req:<b>` or an error, never a stream).  The CONNECT request is the FIRST bidi stream not yet handed
+    over when `conn.WT` runs (`pendingBidi` is a FIFO that `conn.A`, `conn.WT` and `accept_bi` take from).  The
+    receive side of a bidi stream the server opened is a `Peer` with `payOff = 0`: every byte is payload.
+    `open_bi` / `open_uni` wait for stream credit (`uc=` / `bc=`, `gu` / `gb`).  An accept left `pending` at the end
+    of the line is expected only if the RFC parsers find no complete header it could surface (`run`, `pendS`):
+    "surfaced once the header is there" is not taken from the model. -/
 namespace H3.Drv.C19
 open H3.Drv H3.Session
 open H3.FS (Ev)
